@@ -319,7 +319,9 @@ func runC03(c *vh.Ctx) {
 	c.Rule("a case is (source bytes, ScanRegex decisions). Sources: fixed corpus; number forms with a dangling exponent at every distance " +
 		"from LF/CRLF/CR/continuation/NUL/end; token soups over all operator/keyword/literal shapes incl. malformed strings, regexes, escapes, " +
 		"NUL and non-UTF-8 bytes; CR/LF/continuation mixtures; weighted random bytes; every program under testdata and every string literal of the " +
-		"Go test tables, their prefixes and single-byte replace/insert/delete mutations; concatenations up to 32 KiB with LF->CRLF rewrites. " +
+		"Go test tables, their prefixes and single-byte replace/insert/delete mutations; concatenations up to 32 KiB with LF->CRLF rewrites; " +
+		"grammar-directed (ParseProgram totality): every statement/expression kind substituted into every slot of every other kind (slot types ignored: valid " +
+		"nestings and wrong-kind substitutions) with fresh identifiers, in 12 program contexts, truncated after every token, plus random deeper nestings. " +
 		"non-trivial = the lexer produced at least two tokens before EOF/ILLEGAL, or the parser rejected the source")
 	var jobs []c03Job
 	if c.ReplayFile != "" {
@@ -331,6 +333,10 @@ func runC03(c *vh.Ctx) {
 			c.Note("WARNING: fewer repository programs than expected")
 		}
 		jobs = c03Gen(c, files, strs)
+		// grammar-directed stream for the totality oracle; a sample of it also goes through the lexer oracle, the model and the binary
+		for _, src := range c03Grammar(c) {
+			jobs = append(jobs, c03Job{src, polHeur, 0, "grammar"})
+		}
 	}
 
 	type outT struct {
